@@ -28,6 +28,49 @@ DA_LOOPVAR_SUPPRESSIONS = [
 ]
 
 
+def _type_family_exhaustive(ctx, f, var):
+    """The variable is assigned in every arm of an `if P.type == A: .. elif P.type == B: ..` chain (no else) over a
+    parameter P, and {A, B, ..} is exactly a module-level tuple of node types - the family the argument is selected from
+    (`child.type in _COMP_FOR_TYPES`).  -> reason or None"""
+    params = set(f.all_params())
+    for n in walk_own(f.node):
+        if not isinstance(n, ast.If):
+            continue
+        consts, arms, cur, subject = [], [], n, None
+        ok = True
+        while True:
+            t = cur.test
+            if not (isinstance(t, ast.Compare) and len(t.ops) == 1 and isinstance(t.ops[0], ast.Eq)
+                    and isinstance(t.left, ast.Attribute) and t.left.attr == 'type' and isinstance(t.left.value, ast.Name)
+                    and t.left.value.id in params and isinstance(t.comparators[0], ast.Constant)):
+                ok = False
+                break
+            if subject not in (None, t.left.value.id):
+                ok = False
+                break
+            subject = t.left.value.id
+            consts.append(t.comparators[0].value)
+            arms.append(cur.body)
+            if len(cur.orelse) == 1 and isinstance(cur.orelse[0], ast.If):
+                cur = cur.orelse[0]
+                continue
+            if cur.orelse:
+                ok = False
+            break
+        if not ok or len(consts) < 2:
+            continue
+        if not all(any(isinstance(st, ast.Assign) and any(isinstance(t, ast.Name) and t.id == var for t in st.targets)
+                       for st in arm) for arm in arms):
+            continue
+        for name, vals in f.mod.globals.items():
+            for v in vals or []:
+                if isinstance(v, (ast.Tuple, ast.List, ast.Set)) and v.elts and all(
+                        isinstance(e, ast.Constant) for e in v.elts) and {e.value for e in v.elts} == set(consts):
+                    return 'assigned in every arm of the if/elif chain over %s.type, which covers every member of %s, the ' \
+                           'type family the argument is selected from' % (subject, name)
+    return None
+
+
 def _loopvar_suppressed(rel, f, var):
     import re as _re
     for srel, pattern, pos, why in DA_LOOPVAR_SUPPRESSIONS:
@@ -165,6 +208,10 @@ def da_rule(ctx, rep, modules, rule='DA'):
                 why_idx = _only_index_error(ctx, f, var, xs)
                 if why_idx:
                     rep.skip(rule, rel, f.qual, 'read of %s' % var, why_idx)
+                    continue
+                why_fam = _type_family_exhaustive(ctx, f, var)
+                if why_fam:
+                    rep.skip(rule, rel, f.qual, 'read of %s' % var, why_fam)
                     continue
                 bad = True
                 x = xs[0]
